@@ -38,6 +38,8 @@ static PARSER_STEP_LIMIT: Limit = Limit::new(15_000_000);
 
 impl<'t> Parser<'t> {
     pub(super) fn new(inp: &'t Input) -> Parser<'t> {
+        #[cfg(feature = "oq3_verif")]
+        verif::reset();
         Parser {
             inp,
             pos: 0,
@@ -68,6 +70,8 @@ impl<'t> Parser<'t> {
     /// If parser has already reached the end of input,
     /// the special `EOF` kind is returned.
     pub(crate) fn current(&self) -> SyntaxKind {
+        #[cfg(feature = "oq3_verif")]
+        verif::on_lookahead();
         // This has the same effect as self.nth(0)
         self.inp.kind(self.pos)
     }
@@ -76,6 +80,8 @@ impl<'t> Parser<'t> {
     /// token.
     pub(crate) fn nth(&self, n: usize) -> SyntaxKind {
         assert!(n <= 3);
+        #[cfg(feature = "oq3_verif")]
+        verif::on_lookahead();
 
         let steps = self.steps.get();
         assert!(
@@ -95,6 +101,8 @@ impl<'t> Parser<'t> {
     /// Checks if the `n`th token from the current position is `kind`.
     /// If `kind` is a composite token, it is interpreted as single token.
     pub(crate) fn nth_at(&self, n: usize, kind: SyntaxKind) -> bool {
+        #[cfg(feature = "oq3_verif")]
+        verif::on_lookahead();
         match kind {
             T![-=] => self.at_composite2(n, T![-], T![=]),
             T![->] => self.at_composite2(n, T![-], T![>]),
@@ -292,10 +300,14 @@ impl<'t> Parser<'t> {
     fn do_bump(&mut self, kind: SyntaxKind, n_raw_tokens: u8) {
         self.pos += n_raw_tokens as usize;
         self.steps.set(0);
+        #[cfg(feature = "oq3_verif")]
+        verif::on_bump();
         self.push_event(Event::Token { kind, n_raw_tokens });
     }
 
     fn push_event(&mut self, event: Event) {
+        #[cfg(feature = "oq3_verif")]
+        verif::on_event();
         self.events.push(event);
     }
 }
@@ -398,5 +410,70 @@ impl CompletedMarker {
 
     pub(crate) fn kind(&self) -> SyntaxKind {
         self.kind
+    }
+}
+
+/// Verification hooks (feature `oq3_verif`, off by default).
+///
+/// Thread-local progress guard: a grammar loop that stops consuming tokens keeps
+/// pushing events and/or looking at the current token for ever. With the feature on,
+/// such a loop becomes an immediate panic ("oq3_verif: parser stuck") instead of an
+/// unbounded allocation. Also exposes monotone work counters for the current thread.
+#[cfg(feature = "oq3_verif")]
+pub mod verif {
+    use std::cell::Cell;
+
+    /// Maximum number of events pushed without consuming a token.
+    pub const EVENT_BUDGET: u32 = 10_000;
+    /// Maximum number of look-aheads (nth/nth_at/current) without consuming a token.
+    pub const LOOKAHEAD_BUDGET: u32 = 100_000;
+
+    thread_local! {
+        static EVENTS_SINCE_BUMP: Cell<u32> = const { Cell::new(0) };
+        static LOOKS_SINCE_BUMP: Cell<u32> = const { Cell::new(0) };
+        static EVENTS_TOTAL: Cell<u64> = const { Cell::new(0) };
+        static LOOKS_TOTAL: Cell<u64> = const { Cell::new(0) };
+    }
+
+    pub(crate) fn reset() {
+        EVENTS_SINCE_BUMP.with(|c| c.set(0));
+        LOOKS_SINCE_BUMP.with(|c| c.set(0));
+    }
+
+    pub(crate) fn on_bump() {
+        reset();
+    }
+
+    pub(crate) fn on_event() {
+        EVENTS_TOTAL.with(|c| c.set(c.get() + 1));
+        let n = EVENTS_SINCE_BUMP.with(|c| {
+            let n = c.get() + 1;
+            c.set(n);
+            n
+        });
+        if n > EVENT_BUDGET {
+            reset();
+            panic!("oq3_verif: parser stuck (events pushed without consuming a token)");
+        }
+    }
+
+    pub(crate) fn on_lookahead() {
+        LOOKS_TOTAL.with(|c| c.set(c.get() + 1));
+        let n = LOOKS_SINCE_BUMP.with(|c| {
+            let n = c.get() + 1;
+            c.set(n);
+            n
+        });
+        if n > LOOKAHEAD_BUDGET {
+            reset();
+            panic!("oq3_verif: parser stuck (look-aheads without consuming a token)");
+        }
+    }
+
+    /// Return and clear the work counters of this thread: (events pushed, look-aheads).
+    pub fn take_work() -> (u64, u64) {
+        let e = EVENTS_TOTAL.with(|c| c.replace(0));
+        let l = LOOKS_TOTAL.with(|c| c.replace(0));
+        (e, l)
     }
 }
